@@ -273,6 +273,11 @@ def _hilbert3d(x, y, z, bit_length):
 
 def _get_cpu_list(bounding_box, lmax, levelmax, infofile, ncpu, ndim, levelmin=None):
     bound_key = _read_bound_key(infofile=infofile, ncpu=ncpu)
+    if bound_key:
+        # The last domain extends to the end of the curve. The info file holds the keys
+        # with 15 significant digits, which can fall short of it (e.g. 2**66, the end
+        # of the curve for levelmax=21 in 3d, is printed as 0.737869762948382E+20).
+        bound_key[-1] = max(bound_key[-1], (2 ** (levelmax + 1)) ** ndim)
 
     xmin = bounding_box["xmin"]
     xmax = bounding_box["xmax"]
